@@ -15,7 +15,8 @@ from concurrent.futures import ProcessPoolExecutor
 from pathlib import Path
 
 VERIF = Path(__file__).resolve().parent.parent
-SEEDED = VERIF / "seeded"
+SEEDED = VERIF / ("benign" if "--benign" in sys.argv else "seeded")
+BENIGN = "--benign" in sys.argv
 PROPS = ["C01", "C02", "C03", "C04", "C05", "C06", "C07", "C08", "C09", "C11", "C12", "C13", "C14", "C16", "C17", "C18", "C19", "C20"]
 
 
@@ -41,7 +42,7 @@ def run_one(name: str):
 
 
 def main():
-    names = sys.argv[1:] or sorted(p.name for p in SEEDED.iterdir() if (p / "patch.diff").exists())
+    names = [a for a in sys.argv[1:] if not a.startswith("--")] or sorted(p.name for p in SEEDED.iterdir() if (p / "patch.diff").exists())
     with ProcessPoolExecutor(8) as ex:
         results = dict(ex.map(run_one, names))
     summary = {}
@@ -55,6 +56,8 @@ def main():
         fired = [p for p, t in res.items() if t.startswith("FIRED")]
         undec = [p for p, t in res.items() if t.startswith("UNDECIDED")]
         verdict = "CAUGHT" if target in fired else ("caught-by-other" if fired else ("UNDECIDED(exit 2)" if undec else "MISSED"))
+        if BENIGN:
+            verdict = "FALSE-ALARM" if fired else ("undecided(exit 2)" if undec else "silent")
         print(f"{name:28s} target={target} {verdict:18s} fired={fired} undecided={undec}")
         for p in fired + undec:
             print("      ", p, res[p].splitlines()[1].strip()[:200] if len(res[p].splitlines()) > 1 else res[p][:200])
